@@ -464,7 +464,7 @@ def gen_forms(rng: random.Random, tier: str):
     for _ in range(_n(tier, 30, 400, 60)):
         d = rng.choice([2, 3])
         yield {"grid": gen.grid_spec(rng, d, min_size=6, max_size=9), "form": rng.choice(["roi_tuple", "narrow_batch", "ellipsis",
-               "sample_single", "pyramid_spacing", "down_up_odd"]), "seed": rng.randrange(1 << 30)}
+               "sample_single", "pyramid_spacing", "down_up_odd", "center_crop_oversize"]), "seed": rng.randrange(1 << 30)}
 
 
 def check_forms(c):
@@ -516,6 +516,21 @@ def check_forms(c):
             return ("C04:upsample:raises", str(e))
         if list(up.grid().shape) != list(up.shape[2:]):
             return ("C04:upsample:grid-shape", "grid/data mismatch after downsample+upsample")
+        return None
+    if form == "center_crop_oversize":
+        # the requested size exceeds the image along some axes (those axes are kept as they are), is smaller along others
+        a = [0.7, -0.4, 0.2][:d]
+        r = random.Random(c["seed"])
+        n = [int(v) for v in g.size()]
+        size = [v + r.choice([1, 2, 5]) if (k + c["seed"]) % 2 == 0 else v - r.choice([1, 2]) for k, v in enumerate(n)]
+        im = ImageBatch(ramp_image(g, a, 1.0, c0=g.center().tolist()).unsqueeze(0), g)
+        out = im.center_crop(size)
+        want = ramp_image(out.grid(), a, 1.0, c0=g.center().tolist())
+        if list(out.shape[2:]) != list(out.grid().shape) or list(out.grid().size()) != [min(x, y) for x, y in zip(n, size)]:
+            return ("C04:center_crop:oversize:shape", f"center_crop({size}) of a {n} image: data {list(out.shape[2:])}, grid {list(out.grid().size())}")
+        err = float((out.tensor()[0] - want).abs().max())
+        if err > 1e-3 * max(1.0, float(want.abs().max())):
+            return ("C04:center_crop:oversize:ramp", f"center_crop({size}) of a {n} image: data is off the returned grid by {err:.3e}")
         return None
     if form == "pyramid_spacing":
         a = [0.7, -0.4, 0.2][:d]
